@@ -263,11 +263,15 @@ Proof.
   - exfalso. eapply ltp_no_panic; eauto.
 Qed.
 
+Lemma parse_ref_no_panic m pos lim s : lim <= mlen m -> parse_ref m pos lim <> Panic s.
+Proof. intros Hl. unfold parse_ref. apply parse_labels_no_panic. assumption. Qed.
+
 Theorem parse_ref_total m pos lim : lim <= mlen m -> no_panic (parse_ref m pos lim).
 Proof.
-  intros Hl. destruct (parse_ref m pos lim) eqn:E; cbn [no_panic]; auto.
-  - eapply parse_labels_no_panic; eauto.
-  - eapply parse_ref_no_fuel; eauto.
+  intros Hl. pose proof (parse_ref_no_fuel m pos lim) as Hf.
+  pose proof (fun s => parse_ref_no_panic m pos lim s Hl) as Hp.
+  destruct (parse_ref m pos lim); cbn [no_panic]; auto.
+  - eapply Hp; reflexivity.
 Qed.
 
 Example parse_ref_example :
@@ -303,11 +307,18 @@ Proof.
   - exfalso. eapply ltp_no_panic; eauto.
 Qed.
 
+Lemma skip_name_no_panic m pos lim s : lim <= mlen m -> skip_name m pos lim <> Panic s.
+Proof. intros Hl. unfold skip_name. apply skip_labels_no_panic. assumption. Qed.
+
+Lemma skip_name_no_fuel m pos lim : skip_name m pos lim <> OutOfFuel.
+Proof. unfold skip_name. apply skip_labels_no_fuel; unfold PARSE_FUEL; lia. Qed.
+
 Theorem skip_name_total m pos lim : lim <= mlen m -> no_panic (skip_name m pos lim).
 Proof.
-  intros Hl. destruct (skip_name m pos lim) eqn:E; cbn [no_panic]; auto.
-  - eapply skip_labels_no_panic; eauto.
-  - eapply skip_labels_no_fuel; [| |exact E]; unfold PARSE_FUEL; lia.
+  intros Hl. pose proof (skip_name_no_fuel m pos lim) as Hf.
+  pose proof (fun s => skip_name_no_panic m pos lim s Hl) as Hp.
+  destruct (skip_name m pos lim); cbn [no_panic]; auto.
+  - eapply Hp; reflexivity.
 Qed.
 
 Example skip_name_example : skip_name [1;97;192;0;9] 0 5 = Ok 4.
@@ -378,8 +389,8 @@ Proof.
       apply IH in H; [|assumption|lia].
       destruct H as [ls [Hw [Hlen [H255 Hpos]]]].
       exists (slice m (cur + 1) (cur + 1 + b) :: ls).
-      split; [eapply walk_label; eauto; [eapply res_here; eauto|lia|lia|]|].
-      { replace (cur + 1 + b) with (cur + 1 + b) by reflexivity. exact Hw. }
+      split.
+      { apply (walk_label m cur cur b ls); [eapply res_here; eauto|assumption|lia|assumption|lia|exact Hw]. }
       cbn [wire_len]. rewrite slice_length by lia.
       split; [lia|]. split; [assumption|]. left. destruct Hpos as [Hpos|[Hz _]]; [assumption|lia].
   - destruct (hops (S (S (N.to_nat (c0 + 256 * (b mod 64))))) m lim (c0 + 256 * (b mod 64)) (cur + 2)) as [tgt| | |] eqn:Eh;
@@ -433,7 +444,7 @@ Proof.
     destruct (N.ltb_spec len (l + 1)); [lia|].
     replace (Nat.eqb (N.to_nat (t + 1 + l - (t + 1))) 0) with false
       by (symmetry; apply Nat.eqb_neq; lia).
-    rewrite (IH fuel (len - (l + 1)) (slice m (t + 1) (t + 1 + l) :: acc)); [|lia|cbn [length] in Hf; lia].
+    etransitivity; [apply IH; [lia|cbn [length] in Hf; lia]|].
     cbn [rev]. rewrite <- app_assoc. reflexivity.
 Qed.
 
